@@ -170,7 +170,7 @@ def make_oracle(AL, w, V):
     return oracle
 
 
-def loss_laws(cname, grid=None, sym_pre=False, equal_energies=False):
+def loss_laws(cname, grid=None, sym_pre=False, equal_energies=False, regime=None):
     """equal_energies (grid instances with prefactors as inputs): every site energy pinned to the SAME value while the site
     prefactors are pinned to different ones (degenerate energies, unequal occupations)"""
     def fn():
@@ -178,13 +178,22 @@ def loss_laws(cname, grid=None, sym_pre=False, equal_energies=False):
         ENG.exact_sqrt_consts = True
         crys, calc, jn = get_calc(cname)
         N, dim = calc.N, calc.dim
-        name = 'loss:%s:%s' % (cname, ('sym' if grid is None else 'g%d' % grid) + ('-eqE' if equal_energies else ''))
+        name = 'loss:%s:%s' % (cname, ('sym' if grid is None else 'g%d' % grid) + ('-eqE' if equal_energies else '') + ('-' + regime if regime else ''))
         inp = inter.Inputs(calc, sym_pre=sym_pre)
         if grid is not None:
             fixed = {'y_E%d' % w: 1.25 for w in range(len(calc.sitelist))} if equal_energies else None
             for h in inter.concrete_instance(inp, grid, fixed):
                 ENG.assume(h)
-        else:
+        if regime == 'slow':
+            # every rate far below 1e-8 in absolute terms (barriers of ~24 kT and more above sites within 1.4 kT of each other): an
+            # ABSOLUTE tolerance anywhere in the mode selection drops genuine modes here, with a wide margin for the float replay
+            for w_ in range(len(calc.sitelist)):
+                ENG.assume(inp.yE(w_) >= 0.5)
+                ENG.assume(inp.yE(w_) <= 2)
+            for t_ in range(len(jn)):
+                ENG.assume(inp.yT(t_) >= 131072)
+                ENG.assume(inp.yT(t_) <= 1048576)
+        if grid is None:
             # exp(x) >= 1 + x between every two site energies: energies that the code finds close have close monomial variables
             for w1 in range(len(calc.sitelist)):
                 for w2 in range(len(calc.sitelist)):
@@ -195,7 +204,7 @@ def loss_laws(cname, grid=None, sym_pre=False, equal_energies=False):
         dip = [src.reals('P%d' % w, (dim, dim), -1, 1) for w in range(len(calc.sitelist))]
         inputs = dict(inp.inputs)
         inputs.update(src.inputs)
-        info = {'inputs': inputs, 'replayer': 'loss', 'extra': {'crystal': cname, 'sym_pre': sym_pre, 'equal_energies': equal_energies}}
+        info = {'inputs': inputs, 'replayer': 'loss', 'extra': {'crystal': cname, 'sym_pre': sym_pre, 'equal_energies': equal_energies, 'regime': regime}}
         # sqrt(rho): the library's own terms (same memoised sqrt unknowns as inside losstensors), so that the spectral facts
         # meet the code's expressions syntactically; they are checked against the harness' rho below (lemma D)
         s_code, _ = inter.code_sqrt_rho(calc, inp)
@@ -468,6 +477,9 @@ def sections(tier):
     for c in (('X2', 'X5', 'hcp-ot') if tier == 'quick' else ('X2', 'X2b', 'X5', 'hcp-ot', 'tri-edge', 'bccoct')):
         secs.append(S('loss:%s:g0-eqE' % c, loss_laws(c, 0, sym_pre=True, equal_energies=True), timeout_ms=30000, budget_s=160 if tier == 'quick' else 1200,
                       replayer='loss', config='%s/equal site energies, unequal site prefactors' % c, maxpaths=40))
+    for c in (('X2',) if tier == 'quick' else ('X2', 'X2b')):
+        secs.append(S('loss:%s:sym-slow' % c, loss_laws(c, None, regime='slow'), timeout_ms=30000, budget_s=160 if tier == 'quick' else 1200, replayer='loss',
+                      config='%s/all energies symbolic, every rate below 1e-9' % c, maxpaths=40))
     return secs
 
 
